@@ -118,14 +118,18 @@ def crc_loop_spec(eng):
     loops = sorted((x for x in ast.walk(fn) if isinstance(x, (ast.For, ast.While))), key=lambda x: (x.lineno, x.col_offset))
     if not loops or not isinstance(loops[0], ast.For): raise Unsupported("_calculate_crc16: expected an outer for loop")
     outer = loops[0]
+    # loop variables by role: the one accumulator the outer loop carries, the loop's element variable, the iterated octets (ghost local)
+    roles = loop_roles(fn, outer); accs = [c for c in roles["carried"] if c != roles["index"]]
+    if len(accs) != 1 or not isinstance(outer.target, ast.Name): raise Unsupported(f"_calculate_crc16: loop roles not recognised ({roles})")
+    ACC = accs[0]; ELEM = outer.target.id
     def inv(st, e):
-        buf = st.locals["buf"]; c, ok = fit(st.locals["crc"], 16); k = to_int(st.locals["__idx0"])
+        buf = st.locals["__seq0"]; c, ok = fit(st.locals[ACC], 16); k = to_int(st.locals["__idx0"])
         st.ghost["crc_in"] = c
         return [("crc register in range", ok), ("crc == crc16_arc(buf[0:k])", c == S.ARC(buf.arr, buf.off, buf.off + k))]
-    eng.loop_specs[(q, 0)] = (inv, None, {"crc": 16})
+    eng.loop_specs[(q, 0)] = (inv, None, {ACC: 16})
     last = outer.body[-1]
     def cut(st, e):
-        c, ok = fit(st.locals["crc"], 16); b, okb = fit(st.locals["byte"], 8)
+        c, ok = fit(st.locals[ACC], 16); b, okb = fit(st.locals[ELEM], 8)
         return z3.And(ok, okb, c == S.arc_step(st.ghost["crc_in"], b))
     eng.cuts[(q, last.lineno)] = cut
 
@@ -371,7 +375,10 @@ def p1reader_obligations(eng):
             r = st_.getf(item, "_readout"); v = p1_view(st_, rd); raw = v["raw"]
             e = view_end(r); fl = S.FIDX(G, LFb, r.off, e)
             ctx_.oblige(st_, "post:returned readout is byte-identical to a contiguous stream segment ending at the read position", z3.And(z3.BoolVal(r.arr.eq(G)), e == v["gp"], r.n >= 1), node_)
-            ctx_.oblige(st_, "post:returned readout is exactly the collected octets", z3.And(z3.BoolVal(raw.arr.eq(r.arr)), raw.off == r.off, raw.n == r.n), node_)
+            # (ghost) compared with what had been collected when this line-loop iteration started, plus the line just consumed - independent of
+            # whether the implementation clears its collection before or after it hands the readout over
+            hr, hh = st_.ghost.get("head_raw", (None, True))
+            ctx_.oblige(st_, "post:returned readout is exactly the collected octets", z3.BoolVal(False) if hh or hr is None else z3.And(z3.BoolVal(hr.arr.eq(r.arr)), hr.off == r.off, r.n == v["gp"] - hr.off), node_)
             ctx_.oblige(st_, "post:returned readout starts with an ASCII identification line", z3.And(r.at(0) == SLASH, fl < e, S.ALLASCII(G, r.off, fl + 1), S.IDENT(G, r.off, fl + 1)), node_)
             ctx_.oblige(st_, "post:returned readout ends with a line that starts with '!' and ends with LF", z3.And(G[e - 1] == LF, to_int(st_.getf(item, "_end_pos")) < r.n), node_)
         eng.list_append_hook = hook
@@ -384,7 +391,7 @@ def p1reader_obligations(eng):
                 outs.append(s2)
             return outs
         def inv(st_, e, rd=rd, gt0=gt0, cn=cn):
-            v = p1_view(st_, rd)
+            v = p1_view(st_, rd); st_.ghost["head_raw"] = (v["raw"], v["hunt"])
             return list(p1_inv(st_, rd)) + [("ghost: stream length", v["gt"] == gt0 + cn)]
         def dec(st_, e, rd=rd): return p1_view(st_, rd)["pl"]
         eng.loop_specs[(P + "read", 0)] = (inv, dec, {}, havoc)
